@@ -270,16 +270,28 @@ func (p *Program) isLifecycleEnd(fn *ssa.Function) bool {
 	if p.isTransitionLoop(fn) {
 		return false
 	}
+	return p.signalsHeartbeat(fn, 0)
+}
+
+// signalsHeartbeat: fn sends on the heartbeat channel itself or through a small first-party
+// helper that does (the send moved into a method of the runtime environment).
+func (p *Program) signalsHeartbeat(fn *ssa.Function, depth int) bool {
 	for _, b := range fn.Blocks {
 		for _, in := range b.Instrs {
-			if snd, ok := in.(*ssa.Send); ok {
-				if _, n, ok := fieldNameOf(snd.Chan); ok && n == "heartbeat" {
+			switch x := in.(type) {
+			case *ssa.Send:
+				if _, n, ok := fieldNameOf(x.Chan); ok && n == "heartbeat" {
 					return true
 				}
-				if ld, ok := snd.Chan.(*ssa.UnOp); ok {
+				if ld, ok := x.Chan.(*ssa.UnOp); ok {
 					if _, n, ok := fieldNameOf(ld.X); ok && n == "heartbeat" {
 						return true
 					}
+				}
+			case *ssa.Call:
+				h := x.Common().StaticCallee()
+				if depth < 1 && h != nil && p.isFirstParty(h) && len(h.Blocks) == 1 && h.Signature.Results().Len() == 0 && p.signalsHeartbeat(h, depth+1) {
+					return true
 				}
 			}
 		}
